@@ -118,6 +118,21 @@ class BundleInstance:
     def __repr__(self):
         return f"{self.__class__.__name__}(name={self.name} of={self.of})"
 
+    def __copy__(self) -> "BundleInstance":
+        """Bundle-instance copying.
+        Keeps the "public" fields, while dropping per-instance state such as
+        the references handed out and the set of connected ports."""
+        return BundleInstance(
+            name=self.name,
+            of=self.of,
+            port=self.port,
+            flipped=self.flipped,
+            role=self.role,
+            src=self.src,
+            dest=self.dest,
+            desc=self.desc,
+        )
+
     def __rmul__(self, num: int) -> List["Self"]:
         """# Right multiplication. Creates `num` copies of ourselves."""
         if not isinstance(num, int):
